@@ -250,11 +250,45 @@ pub fn eval_mono(c: &MonoCase) -> Eval {
     }
 }
 
+// ---------------------------------------------------------------------------------------------
+// (c) SetSketcher::default() must be the sketcher of SetSketchParams::default()
+
+#[derive(Clone, Debug, Serialize, Deserialize)]
+pub struct DefCase {
+    pub n: u32,
+    pub seed: u64,
+}
+
+pub fn eval_default(c: &DefCase) -> Eval {
+    use probminhash::setsketcher::SetSketchParams;
+    let p = SetSketchParams::default();
+    let mut d: Sks<u16> = Default::default();
+    let mut e: Sks<u16> = Sks::<u16>::new(p, Default::default());
+    for i in 0..c.n as u64 {
+        let x = splitmix64(c.seed.wrapping_add(i));
+        d.sketch(&x).unwrap();
+        e.sketch(&x).unwrap();
+    }
+    ensure!(d.get_signature() == e.get_signature(), "SetSketcher::default() and SetSketcher::new(SetSketchParams::default()) give different registers for the same {} items", c.n);
+    let (cd, rd) = d.get_cardinal_stats();
+    let (ce, re) = e.get_cardinal_stats();
+    ensure!(cd.to_bits() == ce.to_bits() && rd.to_bits() == re.to_bits(), "SetSketcher::default(): cardinal stats ({:e}, {:e}) differ from those of new(default params) ({:e}, {:e})", cd, rd, ce, re);
+    ensure!(d.get_b() == p.get_b(), "SetSketcher::default(): get_b() = {:e}, default parameters have b = {:e}", d.get_b(), p.get_b());
+    let par = MleJaccard::from(p).get_cardinal_estimate(d.get_signature());
+    ensure!(((par - cd) / cd).abs() <= 4.0 * 4096.0 * f64::EPSILON, "SetSketcher::default(): parallel estimate {:e} vs own estimate {:e}", par, cd);
+    if c.n >= 2000 {
+        // 4096 registers: relative standard deviation 1.6 %; 25 % is more than 15 sigma
+        ensure!((cd / c.n as f64 - 1.0).abs() < 0.25, "SetSketcher::default(): estimate {:e} for {} items", cd, c.n);
+    }
+    ensure!(e.merge(&d).is_ok() && d.merge(&e).is_ok(), "default() and new(default params) sketchers refuse to merge");
+    Ok(Report::new(c.n > 0).class_if(c.n >= 2000, "n>=2000"))
+}
+
 pub fn run(ctx: &Ctx) {
     ctx.set_rule("(a) accuracy: proptest generates (register type, m in 16..4096, b in (1,2], a and q as documented for eps = 1e-6, n from 1 to the tier maximum, repetition factor, trial seed); per trial n fresh random items (each streamed dup times) and x = n_hat/n - 1. \
         Decisions: |mean x| <= 2 RSD^2 + 7.5 standard errors (m >= 16, where the estimator has many finite moments; normal approximation); for m >= 64 |sd(x)/RSD - 1| <= 0.15 + 7.5 se_rel with se_rel from the empirical kurtosis; the advertised RSD equals sqrt(((b+1)/(b-1) ln b - 1)/m); failures are re-tested on an independent seed with 4x trials. \
         (b) exact: proptest histories of Sketch(items) / Merge(fresh sketch of items) over valid parameter tuples: the estimate never decreases (checked after every single item and every merge), and MleJaccard::get_cardinal_estimate on the raw registers agrees with get_cardinal_stats().0 to 4 m eps relative under rayon pools of 1, 2, 3, 8, 16 threads, called twice. \
-        Non-trivial = (a) every case, (b) the estimate strictly grew at least twice.");
+        Non-trivial = (a) every case, (b) the estimate strictly grew at least twice. (c) SetSketcher::default() vs SetSketcher::new(SetSketchParams::default()): identical registers, stats, mergeable, estimate within 25 % for n >= 2000.");
     ctx.assume("the expectation claim is tested from m = 16 (for m <= 2 the estimator has infinite variance and no mean-based test is sound) and uses a normal approximation with z = 7.5; the spread claim from m = 64 as stated");
     ctx.assume("rayon's reduction tree cannot be enumerated; agreement is checked to a tolerance that covers every summation order");
     super::run_fixed_tier(ctx, replay);
@@ -262,10 +296,15 @@ pub fn run(ctx: &Ctx) {
     ctx.drive("accuracy", cases, 16, 12, || acc_strategy(max_m, max_n, work), eval_acc);
     let (cases, max_m, max_pool) = ctx.tier.pick((6_000, 256, 500), (150_000, 1024, 3000));
     ctx.drive("monotone-and-parallel", cases, 16, 1000, || mono_strategy(max_m, max_pool), eval_mono);
+    let cases = ctx.tier.pick(64, 1200);
+    ctx.drive("default-constructor", cases, 16, 20, || (prop_oneof![1 => 0u32..50, 2 => 50u32..20_000], any::<u64>()).prop_map(|(n, seed)| DefCase { n, seed }), eval_default);
 }
 
 pub fn replay(ctx: &Ctx, sub: &str, case: &Value) -> Result<(), String> {
-    if sub == "accuracy" {
+    if sub == "default-constructor" {
+        let c: DefCase = parse_case(case)?;
+        ctx.run_fixed(sub, &c, eval_default);
+    } else if sub == "accuracy" {
         let c: AccCase = parse_case(case)?;
         ctx.run_fixed(sub, &c, eval_acc);
     } else {
